@@ -342,6 +342,12 @@ pub struct SortCase {
     swaps: Vec<u16>,
     dups: Vec<u16>,
     legacy: bool,
+    /// arrival order: 0 random permutation, 1 ascending, 2 descending, 3 ascending with a few swaps
+    #[serde(default)]
+    order_mode: u8,
+    /// where duplicate re-enqueues are inserted (monotone position picks)
+    #[serde(default)]
+    dup_at: Vec<u16>,
 }
 
 fn sort_case() -> impl Strategy<Value = SortCase> {
@@ -361,8 +367,9 @@ fn sort_case() -> impl Strategy<Value = SortCase> {
         prop::collection::vec(any::<u16>(), 32),
         prop::collection::vec(any::<u16>(), 0..40),
         any::<bool>(),
+        (0u8..4, prop::collection::vec(any::<u16>(), 40)),
     )
-        .prop_map(|(n, prefix, prefix_byte, digit, keys, rules, swaps, dups, legacy)| SortCase { n, prefix, prefix_byte, digit, keys, rules, swaps, dups, legacy })
+        .prop_map(|(n, prefix, prefix_byte, digit, keys, rules, swaps, dups, legacy, (order_mode, dup_at))| SortCase { n, prefix, prefix_byte, digit, keys, rules, swaps, dups, legacy, order_mode, dup_at })
 }
 
 fn check_sort(_ctx: &Ctx, c: &SortCase, probe: &mut Probe) -> Check {
@@ -399,18 +406,37 @@ fn check_sort(_ctx: &Ctx, c: &SortCase, probe: &mut Probe) -> Check {
             tag: i as u64,
         });
     }
-    // enqueue order: permutation + duplicate re-enqueues (last wins -> new tag)
+    // arrival order + duplicate re-enqueues at generated positions (last wins -> new tag)
     let mut seq: Vec<usize> = (0..n).collect();
-    for i in (1..n).rev() {
-        let j = vkit::pick_idx(c.swaps[i % c.swaps.len()].wrapping_add((i as u16).wrapping_mul(40503)), i + 1);
-        seq.swap(i, j);
+    let by_key = |a: &usize, b: &usize| (cands[*a].scope_hash, cands[*a].compact_rule).cmp(&(cands[*b].scope_hash, cands[*b].compact_rule));
+    match c.order_mode % 4 {
+        0 => {
+            for i in (1..n).rev() {
+                let j = vkit::pick_idx(c.swaps[i % c.swaps.len()].wrapping_add((i as u16).wrapping_mul(40503)), i + 1);
+                seq.swap(i, j);
+            }
+        }
+        1 => seq.sort_by(by_key),
+        2 => {
+            seq.sort_by(by_key);
+            seq.reverse();
+        }
+        _ => {
+            seq.sort_by(by_key);
+            for k in 0..3.min(n / 2) {
+                let a = vkit::pick_idx(c.swaps[(2 * k) % c.swaps.len()], n);
+                let b = vkit::pick_idx(c.swaps[(2 * k + 1) % c.swaps.len()], n);
+                seq.swap(a, b);
+            }
+        }
     }
     let mut enq: Vec<RawCandidate> = seq.iter().map(|i| cands[*i].clone()).collect();
     for (k, d) in c.dups.iter().enumerate() {
         if n > 0 {
             let mut again = cands[vkit::pick_idx(*d, n)].clone();
             again.tag = 1_000_000 + k as u64;
-            enq.push(again);
+            let at = if c.dup_at.is_empty() { enq.len() } else { vkit::pick_idx(c.dup_at[k % c.dup_at.len()], enq.len() + 1) };
+            enq.insert(at, again);
         }
     }
     // reference: last-wins per (scope, rule), ascending by (scope bytes, rule)
@@ -450,7 +476,64 @@ fn check_sort(_ctx: &Ctx, c: &SortCase, probe: &mut Probe) -> Check {
     if c.legacy {
         probe.class("legacy");
     }
+    probe.class(format!("arrival:{}", ["random", "ascending", "descending", "nearly-ascending"][(c.order_mode % 4) as usize]));
     probe.note(serde_json::json!({"n": n, "distinct": want.len(), "prefix": c.prefix, "digit": c.digit, "rules": c.rules, "dups": c.dups.len(), "legacy": c.legacy}));
+    Ok(())
+}
+
+
+// --- every arrival sequence (with repeats) over 4 keys, length <= 6 ----------------
+
+#[derive(Clone, Debug, Serialize, Deserialize)]
+pub struct ArrivalBlock {
+    len: u8,
+    legacy: bool,
+}
+
+fn arrival_blocks(_ctx: &Ctx) -> Box<dyn Iterator<Item = ArrivalBlock>> {
+    Box::new((0..=6u8).flat_map(|len| [false, true].into_iter().map(move |legacy| ArrivalBlock { len, legacy })))
+}
+
+fn check_arrival_block(_ctx: &Ctx, b: &ArrivalBlock, probe: &mut Probe) -> Check {
+    // four keys: two scopes x two rules, scope order opposite to creation order
+    let keys: [([u8; 32], u32); 4] = {
+        let mut hi = [0u8; 32];
+        hi[31] = 9;
+        let mut lo = [0u8; 32];
+        lo[31] = 3;
+        [(hi, 1), (lo, 2), (hi, 2), (lo, 1)]
+    };
+    let total = 4usize.pow(b.len as u32);
+    for code in 0..total {
+        let mut c = code;
+        let mut seq = Vec::with_capacity(b.len as usize);
+        for _ in 0..b.len {
+            seq.push(c % 4);
+            c /= 4;
+        }
+        let mut reference: BTreeMap<([u8; 32], u32), u64> = BTreeMap::new();
+        let drained = with_probe(b.legacy, |p| {
+            for (t, k) in seq.iter().enumerate() {
+                let (scope_hash, compact) = keys[*k];
+                let mut rule_id = [0u8; 32];
+                rule_id[..4].copy_from_slice(&compact.to_be_bytes());
+                p.enqueue(RawCandidate { scope_hash, rule_id, compact_rule: compact, scope: node_key(0, 0), footprint: Footprint::default(), tag: t as u64 });
+                reference.insert((scope_hash, compact), t as u64);
+            }
+            p.drain()
+        });
+        let got: Vec<(([u8; 32], u32), u64)> = drained.iter().map(|d| ((d.scope_hash, d.compact_rule), d.tag)).collect();
+        let want: Vec<(([u8; 32], u32), u64)> = reference.into_iter().collect();
+        if got != want {
+            let pos = got.iter().zip(want.iter()).position(|(g, w)| g != w);
+            let what = if got.len() != want.len() { "lost-or-duplicated" } else if pos.map(|i| got[i].0 != want[i].0).unwrap_or(false) { "order" } else { "last-wins-payload" };
+            vfail!(format!("C03/drain/{what}"), "arrival sequence {:?} (key indices) drains as {:?}, expected {:?}", seq, got.iter().map(|g| (g.0 .0[31], g.0 .1, g.1)).collect::<Vec<_>>(), want.iter().map(|g| (g.0 .0[31], g.0 .1, g.1)).collect::<Vec<_>>());
+        }
+        if seq.len() >= 3 && want.len() < seq.len() {
+            probe.sub_nontrivial(format!("{:?}{}", seq, b.legacy).as_bytes());
+        }
+    }
+    probe.evals(total as u64);
     Ok(())
 }
 
@@ -459,6 +542,7 @@ pub fn subs(_ctx: &Ctx) -> Vec<Box<dyn Sub>> {
         enum_sub("pairs-108x2-exhaustive", |_| true, pair_blocks, check_pair_block),
         enum_sub("pairs-two-instance-exhaustive", |_| true, u2_blocks, check_u2_block),
         enum_sub("triples-81-exhaustive", |_| true, triple_blocks, check_triple_block),
+        enum_sub("arrival-sequences-4-keys-len<=6-exhaustive", |_| true, arrival_blocks, check_arrival_block),
         prop_sub("large-random-sets", 3000, 60_000, large_case(), check_large),
         prop_sub("sort-adversarial-keys", 1200, 24_000, sort_case(), check_sort),
     ]
